@@ -179,7 +179,9 @@ Definition bz_entries (o : reply_opts) (payload : bytes) : list bytes :=
 Definition case_spec_valve : R bytes :=
   let* seed := rd_u64 in
   let* c1 := rd_opt rd_bytes32 in let* c2 := rd_opt rd_bytes32 in let* c3 := rd_opt rd_bytes32 in
-  let '(e, g, st, o) := fst (gen_valve (c1, c2, c3) seed) in
+  let* gov := rd_opt rd_gathering in        (* explicit gather settings override the generated ones *)
+  let '(e, g0, st, o) := fst (gen_valve (c1, c2, c3) seed) in
+  let g := match gov with Some x => Some x | None => g0 end in
   let gg := match g with Some x => x | None => gathering_default end in
   let port := 27015 + seed mod 5 in
   let settings := [10] ++ be16 port ++ enc_engine e ++ enc_opt enc_gathering g ++ enc_tsettings None in
@@ -196,6 +198,8 @@ Definition case_spec_valve : R bytes :=
        ++ str ";ch=" ++ show_N (lenN (ro_challenges (vo_info o))) ++ show_N (lenN (ro_challenges (vo_players o)))
        ++ show_N (lenN (ro_challenges (vo_rules o)))
        ++ str ";port=" ++ show_N port
+       ++ str ";e=" ++ (match e with GoldSrc _ => str "gold" | Source _ => str "src" end)
+       ++ str ";g=" ++ show_hex (enc_toggle (g_players gg) ++ enc_toggle (g_rules gg))
        ++ str ";pk=" ++ show_hex (simple_header ++ p1) ++ str "," ++ show_hex (simple_header ++ p2) ++ str "," ++ show_hex (simple_header ++ p3)).
 
 Definition run_case_R : R bytes :=
